@@ -363,3 +363,87 @@ Theorem C17_precancel_refuted :
     all_done (start cfg progs) = false /\ cancelled (sh (start cfg progs)) = true.
 Proof. exact precancel_refuted. Qed.
 Print Assumptions C17_precancel_refuted.
+
+From GI Require Lib.GoSem Lib.GoSemInt64 Lib.GoSemFail TsDeadline.SrcLib Gen.TsDeadlineSrc TsDeadline.SrcFacts.
+
+(* ---- the source itself: the pure segments of RunT, exec and cmdExec, translated on every run
+   by harness/go2coq (Gen/TsDeadlineSrc.v), are the model (TsDeadline/SrcFacts.v).  time.Duration
+   is int64 with wrap-around (Lib/GoSemInt64.v); [until] is the value of time.Until(p.Deadline);
+   [until_ok until]: an int64 not among the lowest grace_reserve * min_grace values. *)
+
+(* The translated arithmetic of RunT (gp := timeout / 20, the 100 ms floor, timeout -= 2 * gracePeriod)
+   computes the model's grace period and context time-out. *)
+Theorem C17_source_deadline_arith : forall until, TsDeadline.SrcFacts.until_ok until ->
+  TsDeadlineSrc.src_RunT_deadline min_grace until = GoSem.Ok (GoSem.Normal (grace until, ctx_timeout until)).
+Proof. exact TsDeadline.SrcFacts.src_deadline_eq. Qed.
+Print Assumptions C17_source_deadline_arith.
+
+(* The grace period is the model's for EVERY int64 value of time.Until. *)
+Theorem C17_source_grace_every_int64 : forall until, GoSemInt64.is_i64 until ->
+  exists t, TsDeadlineSrc.src_RunT_deadline min_grace until = GoSem.Ok (GoSem.Normal (grace until, t)).
+Proof. exact TsDeadline.SrcFacts.src_deadline_grace. Qed.
+Print Assumptions C17_source_grace_every_int64.
+
+(* On the lowest 200 ms worth of int64 values (time.Until saturates there for a deadline more
+   than about 292 years in the past) Go's subtraction wraps: the context gets a time-out of about
+   +292 years instead of a negative one. *)
+Theorem C17_source_deadline_wraps : forall until,
+  - GoSemInt64.i64_two63 <= until < - GoSemInt64.i64_two63 + grace_reserve * min_grace ->
+  TsDeadlineSrc.src_RunT_deadline min_grace until =
+    GoSem.Ok (GoSem.Normal (min_grace, ctx_timeout until + GoSemInt64.i64_two64)).
+Proof. exact TsDeadline.SrcFacts.src_deadline_wraps. Qed.
+Print Assumptions C17_source_deadline_wraps.
+
+(* From Params to context.WithTimeout, by the translated segments in source order (declaration,
+   test of Params.Deadline, arithmetic, arguments of the call): no deadline, no context with a
+   time-out; otherwise the context is derived from context.Background() with the model's time-out,
+   and the grace period is the model's. *)
+Theorem C17_source_runt_context : forall p until, TsDeadline.SrcFacts.until_ok until ->
+  TsDeadline.SrcFacts.src_runt_context p until =
+    GoSem.Ok (if TsDeadline.SrcLib.go_time_IsZero (TsDeadline.SrcLib.p_Deadline p) then (None, min_grace)
+              else (Some (TsDeadline.SrcLib.CtxBackground, ctx_timeout until), grace until)).
+Proof. exact TsDeadline.SrcFacts.src_runt_context_eq. Qed.
+Print Assumptions C17_source_runt_context.
+
+(* "Two grace periods before the deadline", on the translated segments. *)
+Theorem C17_source_two_grace_periods : forall p until, TsDeadline.SrcFacts.until_ok until ->
+  TsDeadline.SrcLib.go_time_IsZero (TsDeadline.SrcLib.p_Deadline p) = false ->
+  exists g t, TsDeadline.SrcFacts.src_runt_context p until = GoSem.Ok (Some (TsDeadline.SrcLib.CtxBackground, t), g) /\
+              (t + grace_reserve * g = until) /\ g >= min_grace /\ g >= Z.quot until grace_divisor.
+Proof. exact TsDeadline.SrcFacts.src_two_grace_periods. Qed.
+Print Assumptions C17_source_two_grace_periods.
+
+(* A foreground command of a script whose record RunT's literal made is waited for with RunT's
+   context and the model's kill delay (one grace period); a background command with bg_kill_delay. *)
+Theorem C17_source_kill_delay : forall ctx until cmd ts,
+  TsDeadlineSrc.src_RunT_script ctx (grace until) = GoSem.Ok (GoSem.Normal ts) ->
+  TsDeadlineSrc.src_TestScript_exec_wait_args ts cmd = GoSem.Ok (ctx, cmd, fg_kill_delay until).
+Proof. exact TsDeadline.SrcFacts.src_fg_kill_delay_eq. Qed.
+Print Assumptions C17_source_kill_delay.
+
+Theorem C17_source_background_kill_delay : forall ts cmd,
+  TsDeadlineSrc.src_TestScript_cmdExec_bg_wait_args ts cmd = GoSem.Ok (TsDeadline.SrcLib.d_ctxt ts, cmd, bg_kill_delay).
+Proof. exact TsDeadline.SrcFacts.src_bg_wait_args_eq. Qed.
+Print Assumptions C17_source_background_kill_delay.
+
+(* RunT's own os.Remove(testTempDir) / cancel() are guarded by a condition that is false whenever
+   there is a script. *)
+Theorem C17_source_early_cancel_needs_no_scripts : forall p n tw,
+  TsDeadlineSrc.src_RunT_no_scripts p n tw = GoSem.Ok true -> n = 0.
+Proof. exact TsDeadline.SrcFacts.src_no_scripts_requires_empty. Qed.
+Print Assumptions C17_source_early_cancel_needs_no_scripts.
+
+(* The tail of cmdExec, by the translated conditions and Fatalf decisions: the model's verdict
+   for every combination of error / expired context / negation ... *)
+Theorem C17_source_cmd_exec_verdict : forall ts err expired neg,
+  exists x, TsDeadline.SrcFacts.src_cmd_exec_tail ts err expired neg = GoSem.Ok x /\
+            TsDeadline.SrcFacts.verdict_of_exit x = Some (cmd_exec_verdict err expired neg).
+Proof. exact TsDeadline.SrcFacts.src_cmd_exec_tail_eq. Qed.
+Print Assumptions C17_source_cmd_exec_verdict.
+
+(* ... in particular an exec that failed while the context had expired ends in
+   Fatalf("test timed out while running command"). *)
+Theorem C17_source_timed_out_message : forall ts neg,
+  TsDeadline.SrcFacts.src_cmd_exec_tail ts true true neg = GoSem.Ok (GoSemFail.FailedM timed_out_message).
+Proof. exact TsDeadline.SrcFacts.src_cmd_exec_timed_out. Qed.
+Print Assumptions C17_source_timed_out_message.
